@@ -6,7 +6,7 @@ CONSTANTS
   InRuns = {"no", "live", "exited"}
   Lates = {FALSE, TRUE}
   MaxIdle = 1
-  MaxBoot = 0
+  BootVals = {0}
   QLefts = {0, 9}
   CreateOKs <- FirstOff
   StartOKs <- FirstOff
